@@ -43,7 +43,14 @@ for sid in ids:
                 t0 = time.time()
                 c = sh("./check %s --tier %s --seed %d" % (pid, tier, seed), cwd=HERE)
                 viol = [l for l in c.stdout.splitlines() if l.startswith("VIOLATION")]
-                row["runs"].append({"property": pid, "seed": seed, "exit": c.returncode, "violations": viol[:3],
+                signals = []
+                for v in viol[:5]:
+                    try:
+                        rp = json.load(open(os.path.join(HERE, v.split("replay=")[1].split()[0])))
+                        signals.append(rp.get("clause") or rp.get("correspondence") or rp.get("kind"))
+                    except Exception:
+                        pass
+                row["runs"].append({"property": pid, "seed": seed, "exit": c.returncode, "violations": viol[:3], "signals": signals,
                                     "nfi": any("no-failing-input-found" in v for v in viol), "wall_s": round(time.time() - t0, 1)})
                 print(sid, pid, "seed", seed, "exit", c.returncode, (viol[0] if viol else c.stdout.strip().splitlines()[-1][:150]))
         row["caught"] = any(x["exit"] == 1 and x["violations"] for x in row["runs"])
